@@ -16,7 +16,7 @@ def setup():
     os.makedirs(lib.BUILD, exist_ok=True)
     lock = open(os.path.join(lib.BUILD, ".lock"), "w")
     fcntl.flock(lock, fcntl.LOCK_EX)
-    ch, _ = translate.generate(lib.REPO, os.path.join(lib.COQ, "generated"))
+    ch, _, _ = translate.generate(lib.REPO, os.path.join(lib.COQ, "generated"))
     lib.write_coqproject()
     rc, out, err = lib.run(["coq_makefile", "-f", "_CoqProject", "-o", "Makefile"], 120, cwd=lib.COQ)
     if rc != 0:
